@@ -21,6 +21,8 @@
 //! IMPORTANT: this crate lives in its own workspace so that skrifa is built
 //! WITHOUT `autohint_shaping` (like fauntlet); see /verif/DESIGN.md C03.
 
+extern crate a_vf_core as vf_core;
+
 use fauntlet::{Font, Hinting, HintingTarget, InstanceOptions, RegularizingPen};
 use serde_json::{json, Value};
 use skrifa::{outline::pen::PathElement, GlyphId};
